@@ -165,7 +165,7 @@ func DecodeSencSR(hdr BoxHeader, startPos uint64, sr bits.SliceReader) (Box, err
 	flags := versionAndFlags & flagsMask
 	sampleCount := sr.ReadUint32()
 
-	if flags&UseSubSampleEncryption != 0 && ((hdr.Size - 16) < 2*uint64(sampleCount)) {
+	if flags&UseSubSampleEncryption != 0 && (int64(hdr.payloadLen())-8 < 2*int64(sampleCount)) {
 		return nil, fmt.Errorf("box size %d too small for %d samples and subSampleEncryption",
 			hdr.Size, sampleCount)
 	}
